@@ -260,41 +260,10 @@ func run9(t *testing.T, c Case9) (v *verdict, nontrivial bool, labels []string) 
 		}
 		// ---- clause: a failed actor is suspended until its supervisor has decided: between the delivery whose
 		// handler raised the failure and the consultation about it, the actor handles no user message
-		prevConsult := map[string]int{}
-		for _, cs := range w.ConsultsCopy() {
-			if c.Racing {
-				break // directives of an earlier decision may still be in flight when the next failure happens: not judged
-			}
-			// the failure this consultation is about lies after the previous consultation about the same actor
-			// (a consultation without such a failure is an escalated one: the actor did not fail itself)
-			from := prevConsult[cs.Child]
-			prevConsult[cs.Child] = cs.TraceIdx
-			f := -1
-			for i := cs.TraceIdx - 1; i >= from && i >= 0 && i < len(tr); i-- {
-				if tr[i].Actor == cs.Child && tr[i].Fails {
-					f = i
-					break
-				}
-			}
-			if f < 0 {
-				continue
-			}
-			// another decision in between (a sibling's failure under one-for-all, an ancestor's restart) may
-			// legitimately have resumed or drained this actor: not judged
-			other := false
-			for _, o := range w.ConsultsCopy() {
-				if o.TraceIdx > f && o.TraceIdx <= cs.TraceIdx && !(o.Child == cs.Child && o.TraceIdx == cs.TraceIdx) {
-					other = true
-				}
-			}
-			if other {
-				continue
-			}
-			for i := f + 1; i < cs.TraceIdx && i < len(tr); i++ {
-				if tr[i].Actor == cs.Child && tr[i].Kind == "msg" && tr[i].Inst == tr[f].Inst {
-					v = &verdict{"C09/runs-while-failed", fmt.Sprintf("%s failed (%s) and, before its supervisor %s was consulted about that failure, handled %s: a failed actor is suspended until the decision; its trace: %s", cs.Child, tr[f].String(), cs.Supervisor, tr[i].String(), world.Fmt(tailN(per[cs.Child], 16)))}
-					return
-				}
+		if !c.Racing { // with bursts released together, directives of an earlier decision may still be in flight when the next failure happens
+			if d := handledWhileFailed(tr, w.ConsultsCopy()); d != "" {
+				v = &verdict{"C09/runs-while-failed", d + "; its trace: " + world.Fmt(tailN(per[failedActorOf(d)], 16))}
+				return
 			}
 			lab["suspended-until-decision-checked"] = true
 		}
@@ -604,4 +573,49 @@ func TestReplay9(t *testing.T) {
 		t.Fatal(err)
 	}
 	check9(t, t.Fatalf, c)
+}
+
+// handledWhileFailed: a failed actor is suspended until its supervisor has decided. For every consultation the failure
+// it is about is the child's last failing delivery after the previous consultation about the same child (none: an
+// escalated consultation, the child did not fail itself); between that delivery and the consultation the child must
+// not handle a user message - unless another consultation lies in between (a sibling's failure under one-for-all or
+// an ancestor's restart may legitimately have resumed or drained it). Returns a description, "" if the clause holds.
+func handledWhileFailed(tr []world.Ev, consults []world.Consult) string {
+	prevConsult := map[string]int{}
+	for _, cs := range consults {
+		from := prevConsult[cs.Child]
+		prevConsult[cs.Child] = cs.TraceIdx
+		f := -1
+		for i := cs.TraceIdx - 1; i >= from && i >= 0 && i < len(tr); i-- {
+			if tr[i].Actor == cs.Child && tr[i].Fails {
+				f = i
+				break
+			}
+		}
+		if f < 0 {
+			continue
+		}
+		other := false
+		for _, o := range consults {
+			if o.TraceIdx > f && o.TraceIdx <= cs.TraceIdx && !(o.Child == cs.Child && o.TraceIdx == cs.TraceIdx) {
+				other = true
+			}
+		}
+		if other {
+			continue
+		}
+		for i := f + 1; i < cs.TraceIdx && i < len(tr); i++ {
+			if tr[i].Actor == cs.Child && tr[i].Kind == "msg" && tr[i].Inst == tr[f].Inst {
+				return fmt.Sprintf("%s failed (%s) and, before its supervisor %s was consulted about that failure, handled %s: a failed actor is suspended until the decision", cs.Child, tr[f].String(), cs.Supervisor, tr[i].String())
+			}
+		}
+	}
+	return ""
+}
+
+func failedActorOf(detail string) string {
+	if i := strings.Index(detail, " failed ("); i > 0 {
+		return detail[:i]
+	}
+	return ""
 }
